@@ -235,7 +235,12 @@ fn seq_spec(ctx: &Ctx, shards: usize) -> crate::harness::seq::SeqSpec {
             ups(1, true, Some(1), Some(2000), false),
             ups(2, true, Some(2), None, true),
             adv(2000),
+            // an odd second: the shard of the 1 s / 1.5 s expiries comes up for sweeping (with adv(2000) alone those keys stay
+            // expired-but-unswept for ever, which is wanted too)
+            adv(1000),
             Op::TickWait,
+            // reads are not supposed to change anything that is accounted
+            crate::props::common::get(1),
         ],
         depth: if ctx.quick() { 7 } else { 9 },
         allow: None,
